@@ -337,6 +337,81 @@ func GenHist(r *vproto.Rng, phase int, par [2]int, kind string, size int, nq int
 	return h
 }
 
+// GenNonDyadic: boxes and queries on the k/10, k/7 or k/3 grid as float64 values (NOT exactly
+// representable: the Lean side uses the exact dyadic value of every float, so "touching" means
+// bit-equal coordinates, which is guaranteed here by computing every coordinate as float64(k)/d from
+// its integer k).  The heuristics' areas are inexact in float64, so the tree may differ from the
+// exact-Rat model by tie-breaking: the class name carries "specOnly" and the judge evaluates only the
+// Spec (search = brute force on exact values, WF incl. exact envelopes on the dumped boxes, Size,
+// Depth, Delete results) for this family.
+func GenNonDyadic(r *vproto.Rng, par [2]int, kind string, size int) *Hist {
+	d := []float64{10, 7, 3, 10}[r.Intn(4)]
+	v := func(k int) float64 { return float64(k) / d }
+	h := &Hist{Min: par[0], Max: par[1], Kind: kind, Scale: 1 / d}
+	span := 12 + r.Intn(20)
+	seen := map[[2]int]bool{}
+	type ib struct{ x, y, w, hh int }
+	var ibs []ib
+	for len(h.Pool) < size+4 {
+		x, y := r.Range(0, span), r.Range(0, span)
+		w, hh := r.Range(0, 4), r.Range(0, 4)
+		if kind == "pt" {
+			if seen[[2]int{x, y}] {
+				continue
+			}
+			seen[[2]int{x, y}] = true
+			w, hh = 0, 0
+		}
+		if len(ibs) > 0 && r.Chance(0.35) { // touch an earlier box along an edge or at a corner
+			o := ibs[r.Intn(len(ibs))]
+			switch r.Intn(4) {
+			case 0:
+				x, y = o.x+o.w, o.y
+			case 1:
+				x, y = o.x+o.w, o.y+o.hh
+			case 2:
+				x, y = o.x, o.y+o.hh
+			default:
+				x, y = o.x-w, o.y
+			}
+			if kind == "pt" && seen[[2]int{x, y}] {
+				continue
+			}
+			seen[[2]int{x, y}] = true
+		}
+		ibs = append(ibs, ib{x, y, w, hh})
+		h.Pool = append(h.Pool, Box{v(x), v(y), v(x + w), v(y + hh)})
+	}
+	b := &hb{r: r, h: h, maxOps: 5 * size}
+	b.grow(size)
+	b.churn(size, 0.4)
+	b.grow(size / 3)
+	qs := []Box{{-1e6, -1e6, 1e6, 1e6}}
+	for len(qs) < 9 {
+		o := ibs[r.Intn(len(ibs))]
+		switch r.Intn(7) {
+		case 0: // grid cell
+			x, y := r.Range(-1, span+4), r.Range(-1, span+4)
+			qs = append(qs, Box{v(x), v(y), v(x + 1), v(y + 1)})
+		case 1: // point on a corner
+			qs = append(qs, Box{v(o.x + o.w), v(o.y + o.hh), v(o.x + o.w), v(o.y + o.hh)})
+		case 2: // segment on the right border
+			qs = append(qs, Box{v(o.x + o.w), v(o.y), v(o.x + o.w), v(o.y + o.hh)})
+		case 3: // box touching the left edge from outside
+			qs = append(qs, Box{v(o.x - 2), v(o.y - 1), v(o.x), v(o.y + o.hh + 1)})
+		case 4: // box touching the top-right corner from outside
+			qs = append(qs, Box{v(o.x + o.w), v(o.y + o.hh), v(o.x + o.w + 3), v(o.y + o.hh + 2)})
+		case 5: // segment on the bottom border, extended
+			qs = append(qs, Box{v(o.x - 1), v(o.y), v(o.x + o.w + 1), v(o.y)})
+		default: // one grid step off: must NOT be reported
+			qs = append(qs, Box{v(o.x + o.w + 1), v(o.y), v(o.x + o.w + 2), v(o.y + o.hh)})
+		}
+	}
+	h.Queries = qs
+	h.Class = fmt.Sprintf("nondyadic-specOnly-%s-m%dM%d", kind, par[0], par[1])
+	return h
+}
+
 // Corpus returns the fixed hand-picked histories.
 func Corpus() []*Hist {
 	line := func(n int) []Box {
@@ -403,6 +478,25 @@ func Corpus() []*Hist {
 				Ops: seq(ops...), Queries: []Box{{-1e6, -1e6, 1e6, 1e6}, {10, 10, 22, 18}, {4, 26, 4, 26}}})
 		}
 	}
+	// touching boxes at non-dyadic coordinates: [0,0.1] and [0.1,0.2]; point, segment and cell queries on the shared edge
+	{
+		v := func(k int) float64 { return float64(k) / 10 }
+		var pool []Box
+		var ops []int
+		for k := 0; k < 12; k++ {
+			pool = append(pool, Box{v(k), v(k % 3), v(k + 1), v(k%3 + 1)})
+			ops = append(ops, k)
+		}
+		var qs []Box
+		for k := 0; k <= 12; k++ {
+			qs = append(qs, Box{v(k), v(0), v(k), v(3)})
+		}
+		qs = append(qs, Box{v(1), v(1), v(1), v(1)}, Box{v(3), v(0), v(4), v(1)}, Box{v(12), v(0), v(13), v(3)})
+		for _, par := range [][2]int{{2, 4}, {3, 6}} {
+			hs = append(hs, &Hist{Class: "corpus-nondyadic-specOnly-touching", Min: par[0], Max: par[1], Kind: "bnd", Pool: pool,
+				Ops: seq(append(ops, -1, -6, 0, 5)...), Queries: qs})
+		}
+	}
 	return hs
 }
 
@@ -419,6 +513,10 @@ func Gen(seed uint64, tier string) []*Hist {
 		kind := Kinds[(i/len(Params))%len(Kinds)]
 		phase := (i / 3) % 6
 		size := 8 + r.Intn(40)
+		if i%9 == 8 { // non-dyadic coordinates, judged by the Spec only
+			hs = append(hs, GenNonDyadic(r, par, kind, 10+r.Intn(30)))
+			continue
+		}
 		if par[1] <= 4 && i%4 == 0 { // height >= 3 with small branching, complete drain and refill
 			phase = 0
 			size = 12 + r.Intn(30)
